@@ -1,12 +1,9 @@
 (* C08 encoding, level 1: the machine-word encoders of one coefficient compute the balanced expansion.
-   Radix 1 <= b <= 62, i64 limbs; the encoded value may be any i64 / i128 (the first carry wraps at the top of the
-   type: `top_eff`). *)
+   Radix 1 <= b <= 62, i64 limbs; the encoded value may be any i64 / i128 (the carry `(x >> b) + (digit < 0)` of the
+   encoders is exact on the whole range of the word). *)
 From PV Require Import Base.MachineInt Model.Znx Model.Limbs Model.C08Encode Proofs.ZnxDigit Proofs.C08Steps
   Proofs.C08EncodeSpec.
 Open Scope Z_scope.
-
-(* the value the carry chain really sees: v, or v - 2^w when `x - digit` (digit of radix r) wraps *)
-Definition top_eff (w r v : Z) : Z := if 2 ^ (w - 1) <=? v - wrap r v then v - 2 ^ w else v.
 
 (* what the encoders write for a value V at precision k: balanced digits of radix 2^b above a last limb holding the
    low k' = b - krem bits, shifted left by krem; then zeros *)
@@ -63,59 +60,33 @@ Proof.
     rewrite Z.div_mul_cancel_r by lia. reflexivity.
 Qed.
 
-(* ---------- the first carry of a full-range word ---------- *)
+(* ---------- the carry of the encoders is exact on the whole word ---------- *)
 
-Lemma top_eff_wrap (w r v : Z) : 1 <= r <= w -> wrap r (top_eff w r v) = wrap r v.
+Lemma enc_carry_exact (w r x : Z) : 1 <= r < w -> in_range w x ->
+  enc_get_carry w r x (get_digit w r x) = bdiv r x /\ Z.abs (bdiv r x) * 2 ^ r <= 2 ^ (w - 1) + 2 ^ (r - 1).
 Proof.
-  intros Hr. unfold top_eff. destruct (2 ^ (w - 1) <=? v - wrap r v); [|reflexivity].
-  assert (E : 2 ^ w = 2 ^ r * 2 ^ (w - r)) by (rewrite <- Z.pow_add_r by lia; f_equal; lia).
-  replace (v - 2 ^ w) with (v + 2 ^ r * (- 2 ^ (w - r))) by (rewrite E; ring).
-  apply wrap_add_mul. lia.
-Qed.
-
-(* x - digit, wrapped to the word, is exactly (effective value) - digit; the carry is the balanced quotient of the
-   effective value and fits w - 1 - r bits *)
-Lemma top_carry (w r v : Z) : 1 <= r < w -> in_range w v ->
-  get_carry w r v (get_digit w r v) = bdiv r (top_eff w r v) /\
-  Z.abs (bdiv r (top_eff w r v)) * 2 ^ r <= 2 ^ (w - 1).
-Proof.
-  intros Hr [Hv1 Hv2].
+  intros Hr [Hx1 Hx2].
   rewrite digit_spec by lia.
-  pose proof (wrap_range r v ltac:(lia)) as [Hd1 Hd2].
-  pose proof (wrap_bdiv r v ltac:(lia)) as Hdec.
+  pose proof (wrap_range r x ltac:(lia)) as [Hd1 Hd2].
+  pose proof (wrap_bdiv r x ltac:(lia)) as Hdec.
   pose proof (pow2_pos r ltac:(lia)) as Hpr. pose proof (pow2_split r ltac:(lia)) as Hsr.
+  pose proof (pow2_pos (r - 1) ltac:(lia)) as Hpr1.
   pose proof (pow2_split w ltac:(lia)) as Hsw. pose proof (pow2_pos (w - 1) ltac:(lia)) as Hpw.
   assert (Ew : 2 ^ (w - 1) = 2 ^ r * 2 ^ (w - 1 - r)) by (rewrite <- Z.pow_add_r by lia; f_equal; lia).
   pose proof (pow2_pos (w - 1 - r) ltac:(lia)) as Hpq.
-  set (d := wrap r v) in *. set (q := bdiv r v) in *.
-  (* q ranges over [-2^(w-1-r), 2^(w-1-r)] *)
+  set (d := wrap r x) in *. set (q := bdiv r x) in *.
   assert (Hq1 : - 2 ^ (w - 1 - r) <= q) by nia.
   assert (Hq2 : q <= 2 ^ (w - 1 - r)) by nia.
-  pose proof (top_eff_wrap w r v ltac:(lia)) as Hte. fold d in Hte.
-  pose proof (wrap_bdiv r (top_eff w r v) ltac:(lia)) as Hdec2. rewrite Hte in Hdec2.
-  assert (Hc : wrap w (v - d) = top_eff w r v - d).
-  { unfold top_eff. fold d. destruct (Z.leb_spec (2 ^ (w - 1)) (v - d)) as [Ho|Ho].
-    - replace (v - 2 ^ w - d) with (v - d + 2 ^ w * (-1)) by ring.
-      rewrite <- (wrap_add_mul w (v - d) (-1)) by lia.
-      apply wrap_id; [lia|]. unfold in_range. nia.
-    - apply wrap_id; [lia|]. unfold in_range. nia. }
-  split.
-  - unfold get_carry, wsub, asr. rewrite Hc.
-    replace (top_eff w r v - d) with (bdiv r (top_eff w r v) * 2 ^ r) by lia.
-    apply Z.div_mul. lia.
-  - pose proof (wrap_range w (v - d) ltac:(lia)) as [Hw1 Hw2]. rewrite Hc in Hw1, Hw2.
-    assert (E : top_eff w r v - d = 2 ^ r * bdiv r (top_eff w r v)) by lia.
-    rewrite E in Hw1, Hw2. nia.
-Qed.
-
-Lemma top_eff_small (w r v : Z) : 1 <= r < w -> Z.abs v <= 2 ^ (w - 2) -> r <= w - 2 -> top_eff w r v = v.
-Proof.
-  intros Hr Hv Hr2. unfold top_eff.
-  pose proof (wrap_range r v ltac:(lia)) as [Hd1 Hd2].
-  assert (2 ^ (r - 1) <= 2 ^ (w - 3)) by (apply Z.pow_le_mono_r; lia).
-  assert (Ew : 2 ^ (w - 1) = 2 * 2 ^ (w - 2)) by (replace (w - 2) with (w - 1 - 1) by lia; apply pow2_split; lia).
-  assert (Ew2 : 2 ^ (w - 2) = 2 * 2 ^ (w - 3)) by (replace (w - 3) with (w - 2 - 1) by lia; apply pow2_split; lia).
-  destruct (Z.leb_spec (2 ^ (w - 1)) (v - wrap r v)); [lia|reflexivity].
+  assert (Hb : Z.abs q * 2 ^ r <= 2 ^ (w - 1) + 2 ^ (r - 1)) by nia.
+  split; [|exact Hb].
+  unfold enc_get_carry, wadd, asr.
+  assert (Ef : x / 2 ^ r + (if d <? 0 then 1 else 0) = q).
+  { destruct (Z.ltb_spec d 0) as [Hn|Hn].
+    - assert (x / 2 ^ r = q - 1); [|lia].
+      symmetry. apply (Z.div_unique_pos _ _ _ (d + 2 ^ r)); lia.
+    - assert (x / 2 ^ r = q); [|lia].
+      symmetry. apply (Z.div_unique_pos _ _ _ d); lia. }
+  rewrite Ef. apply wrap_id; [lia|]. unfold in_range. nia.
 Qed.
 
 Section B.
@@ -127,25 +98,60 @@ Proof. lia. Qed.
 
 (* first step on a full-range i64 *)
 Lemma first_full (lsh v : Z) : 0 <= lsh < b -> in_range 64 v ->
-  let V := top_eff 64 (b - lsh) v in
-  first_step_assign 64 b lsh v = (wrap (b - lsh) V * 2 ^ lsh, bdiv (b - lsh) V) /\
-  Z.abs (bdiv (b - lsh) V) <= 2 ^ 62.
+  enc_first_step b lsh v = (wrap (b - lsh) v * 2 ^ lsh, bdiv (b - lsh) v) /\
+  Z.abs (bdiv (b - lsh) v) <= 2 ^ 62.
 Proof.
-  intros Hl Hv V.
-  destruct (top_carry 64 (b - lsh) v ltac:(lia) Hv) as [Hc Hcb]. fold V in Hc, Hcb.
-  pose proof (top_eff_wrap 64 (b - lsh) v ltac:(lia)) as Hte. fold V in Hte.
-  assert (Hbound : Z.abs (bdiv (b - lsh) V) <= 2 ^ 62).
-  { pose proof (pow2_pos (b - lsh) ltac:(lia)) as Hp.
-    assert (2 <= 2 ^ (b - lsh)).
-    { replace 2 with (2 ^ 1) at 1 by reflexivity. apply Z.pow_le_mono_r; lia. }
+  intros Hl Hv.
+  destruct (enc_carry_exact 64 (b - lsh) v ltac:(lia) Hv) as [Hc Hcb].
+  assert (Hbound : Z.abs (bdiv (b - lsh) v) <= 2 ^ 62).
+  { pose proof (pow2_pos (b - lsh) ltac:(lia)) as Hp. pose proof (pow2_split (b - lsh) ltac:(lia)) as Hs.
+    pose proof (pow2_pos (b - lsh - 1) ltac:(lia)) as Hp1.
     change (2 ^ (64 - 1)) with (2 * 2 ^ 62) in Hcb. nia. }
   split; [|exact Hbound].
-  unfold first_step_assign. destruct (Z.eqb_spec lsh 0) as [E|E].
+  unfold enc_first_step. destruct (Z.eqb_spec lsh 0) as [E|E].
   - subst lsh. rewrite Z.sub_0_r in *. cbv zeta. rewrite Hc. rewrite digit_spec by lia.
-    rewrite Hte, Z.pow_0_r, Z.mul_1_r. reflexivity.
-  - cbv zeta. rewrite Hc. rewrite digit_spec by lia. rewrite Hte. f_equal.
+    rewrite Z.pow_0_r, Z.mul_1_r. reflexivity.
+  - cbv zeta. rewrite Hc. rewrite digit_spec by lia. f_equal.
     apply shl_exact; [lia|].
     apply (in_range_weaken b 64); [lia|]. apply shifted_digit_range; [lia|]. apply wrap_range; lia.
+Qed.
+
+(* middle step with headroom: the ideal balanced division step *)
+Lemma enc_middle_ideal (lsh a c : Z) : 0 <= lsh < b -> Z.abs a <= 2 ^ 62 -> Z.abs c <= 2 ^ 62 ->
+  enc_middle_step b lsh a c = (wrap b (a * 2 ^ lsh + c), bdiv b (a * 2 ^ lsh + c)).
+Proof.
+  intros Hl Ha Hc.
+  assert (E63 : 2 ^ (64 - 1) = 2 * 2 ^ 62) by reflexivity.
+  assert (H61 : 2 ^ (b - 1) <= 2 ^ 61) by (apply Z.pow_le_mono_r; lia).
+  assert (E62 : 2 ^ 62 = 2 * 2 ^ 61) by reflexivity.
+  pose proof (pow2_pos (b - 1) ltac:(lia)) as Hpb1.
+  assert (Hra : in_range 64 a) by (unfold in_range; lia).
+  unfold enc_middle_step.
+  assert (Ebl : (if lsh =? 0 then b else b - lsh) = b - lsh) by (destruct (Z.eqb_spec lsh 0); lia).
+  rewrite Ebl. cbv zeta.
+  destruct (enc_carry_exact 64 (b - lsh) a ltac:(lia) Hra) as [Hc1 _]. rewrite Hc1.
+  rewrite (digit_spec 64 (b - lsh) a) by lia.
+  set (d := wrap (b - lsh) a). set (cr := bdiv (b - lsh) a).
+  pose proof (wrap_bdiv (b - lsh) a ltac:(lia)) as Hdec. fold d cr in Hdec.
+  assert (Hdr : in_range (b - lsh) d) by (apply wrap_range; lia).
+  pose proof (shifted_digit_range b lsh d Hl Hdr) as [S1 S2].
+  assert (Esh : (if lsh =? 0 then d else shl 64 d lsh) = d * 2 ^ lsh).
+  { destruct (Z.eqb_spec lsh 0) as [->|Hne]; [rewrite Z.pow_0_r; lia|].
+    apply shl_exact; [lia|]. apply (in_range_weaken b 64); [lia|split; assumption]. }
+  rewrite Esh. set (sh := d * 2 ^ lsh) in *.
+  assert (Edpc : wadd 64 sh c = sh + c).
+  { unfold wadd. apply wrap_id; [lia|]. unfold in_range. lia. }
+  rewrite Edpc.
+  assert (Hrd : in_range 64 (sh + c)) by (unfold in_range; lia).
+  destruct (enc_carry_exact 64 b (sh + c) ltac:(lia) Hrd) as [Hc2 _]. rewrite Hc2.
+  rewrite digit_spec by lia.
+  assert (E2 : 2 ^ b = 2 ^ (b - lsh) * 2 ^ lsh) by (rewrite <- Z.pow_add_r by lia; f_equal; lia).
+  assert (Ev : a * 2 ^ lsh + c = (sh + c) + 2 ^ b * cr) by (unfold sh; rewrite E2; nia).
+  rewrite Ev, wrap_add_mul, bdiv_add_mul by lia. f_equal.
+  assert (Hk : Z.abs (bdiv b (a * 2 ^ lsh + c)) <= 2 ^ 62).
+  { apply bdiv_chain; try lia. apply shifted_bound; auto; lia. }
+  rewrite Ev, bdiv_add_mul in Hk by lia.
+  unfold wadd. rewrite Z.add_comm. apply wrap_id; [lia|]. unfold in_range. lia.
 Qed.
 
 (* the in-place tail over limbs with headroom is the normalising chain of the shifted limbs *)
@@ -159,8 +165,7 @@ Proof.
   - cbn [map nchain]. unfold final_step_assign.
     rewrite (final_core_ideal 64 b lsh Hb64 Hl x c) by (change (2 ^ (64 - 2)) with (2 ^ 62); assumption).
     reflexivity.
-  - unfold middle_step_assign.
-    rewrite (middle_core_ideal 64 b lsh Hb64 Hl x c) by (change (2 ^ (64 - 2)) with (2 ^ 62); assumption).
+  - rewrite (enc_middle_ideal lsh x c Hl Hx Hc).
     f_equal. apply IH.
     apply bdiv_chain; try lia. apply shifted_bound; auto; lia.
 Qed.
@@ -169,14 +174,14 @@ Lemma enc_tail_length (lsh : Z) (l : list Z) (c : Z) : length (enc_tail b lsh l 
 Proof.
   revert c; induction l as [|x t IH]; intros c; [reflexivity|].
   cbn [enc_tail]. destruct t as [|y t']; [reflexivity|].
-  destruct (middle_step_assign 64 b lsh x c) as [x' c']. cbn [length]. f_equal. apply IH.
+  destruct (enc_middle_step b lsh x c) as [x' c']. cbn [length]. f_equal. apply IH.
 Qed.
 
 (* the normalisation loop on  hi ++ x :: rest  with length hi = size - 1 *)
 Lemma enc_norm_app (lsh : Z) (hi rest : list Z) (x : Z) : 0 <= lsh < b -> in_range 64 x ->
   Forall (fun y => Z.abs y <= 2 ^ 62) hi ->
   enc_norm b lsh (S (length hi)) (hi ++ x :: rest) =
-    rev (ldigs b (S (length hi)) (top_eff 64 (b - lsh) x * 2 ^ lsh + 2 ^ b * (lvalr b (rev hi) * 2 ^ lsh))) ++ rest.
+    rev (ldigs b (S (length hi)) (x * 2 ^ lsh + 2 ^ b * (lvalr b (rev hi) * 2 ^ lsh))) ++ rest.
 Proof.
   intros Hl Hx Hhi. unfold enc_norm.
   assert (Ef : firstn (S (length hi)) (hi ++ x :: rest) = hi ++ [x]).
@@ -188,14 +193,11 @@ Proof.
     replace (hi ++ x :: rest) with ((hi ++ [x]) ++ rest) by (rewrite <- app_assoc; reflexivity).
     rewrite skipn_app, skipn_all, Nat.sub_diag. reflexivity. }
   rewrite Ef, Es, rev_app_distr. cbn [rev app].
-  destruct (first_full lsh x Hl Hx) as [E1 Hc]. cbv zeta in E1. rewrite E1.
+  destruct (first_full lsh x Hl Hx) as [E1 Hc]. rewrite E1.
   rewrite enc_tail_nchain by (auto; apply Forall_rev; exact Hhi).
   rewrite nchain_ldigs by lia. rewrite map_length, rev_length.
   f_equal. f_equal. cbn [ldigs].
-  set (V := top_eff 64 (b - lsh) x) in *.
   rewrite lvalr_scale.
-  replace (V * 2 ^ lsh + 2 ^ b * (lvalr b (rev hi) * 2 ^ lsh))
-    with (V * 2 ^ lsh + 2 ^ b * (lvalr b (rev hi) * 2 ^ lsh)) by reflexivity.
   rewrite wrap_add_mul, bdiv_add_mul by lia.
   rewrite wrap_scale, bdiv_scale by lia.
   cbn [rev]. do 3 f_equal. ring.
@@ -224,7 +226,7 @@ Qed.
 (* ---------- encode_vec_i64 / encode_coeff_i64 ---------- *)
 
 Theorem enc_i64_spec (k : Z) (a_size : nat) (v : Z) : 1 <= k <= Z.of_nat a_size * b -> in_range 64 v ->
-  enc_i64 b k a_size v = enc_spec b k a_size (top_eff 64 (b - enc_krem b k) v).
+  enc_i64 b k a_size v = enc_spec b k a_size v.
 Proof.
   intros Hk Hv. unfold enc_i64, enc_spec. cbv zeta.
   destruct (enc_params b k ltac:(lia) ltac:(lia)) as (Esz & Hr & Hs1).
@@ -238,47 +240,35 @@ Proof.
   rewrite El. replace (S (size - 1)) with size by lia.
   unfold zeros at 1. rewrite rev_repeat. fold (zeros (size - 1)). rewrite lvalr_zeros.
   rewrite Z.mul_0_l, Z.mul_0_r, Z.add_0_r.
-  set (V := top_eff 64 (b - krem) v).
   replace size with (S (size - 1)) at 1 by lia. cbn [ldigs rev].
   rewrite wrap_scale, bdiv_scale by lia. rewrite <- app_assoc. reflexivity.
 Qed.
 
 (* ---------- encode_vec_i128 ---------- *)
 
-Lemma enc_digits128_small (n : nat) (a : Z) : Z.abs a <= 2 ^ 126 -> enc_digits128 b n a = ldigs b n a.
+Lemma enc_digits128_ldigs (n : nat) (a : Z) : in_range 128 a -> enc_digits128 b n a = ldigs b n a.
 Proof.
   revert a; induction n as [|n IH]; intros a Ha; [reflexivity|].
   cbn [enc_digits128 ldigs]. cbv zeta.
-  pose proof (pow2_pos (b - 1) ltac:(lia)) as Hp.
-  destruct (digit_carry_ideal 128 b a ltac:(lia)) as [Ed Ec].
-  { change (2 ^ (128 - 2)) with (2 ^ 126). lia. }
-  rewrite Ec, Ed. f_equal.
+  destruct (enc_carry_exact 128 b a ltac:(lia) Ha) as [Hc Hcb].
+  rewrite Hc. rewrite digit_spec by lia. f_equal.
   - apply wrap_id; [lia|]. apply (in_range_weaken b 64); [lia|]. apply wrap_range; lia.
-  - apply IH. replace a with (0 + a) by lia. apply bdiv_chain; try lia; cbn; lia.
-Qed.
-
-Lemma enc_digits128_full (n : nat) (v : Z) : in_range 128 v -> (1 <= n)%nat ->
-  enc_digits128 b n v = ldigs b n (top_eff 128 b v).
-Proof.
-  intros Hv Hn. destruct n as [|n]; [lia|]. cbn [enc_digits128 ldigs]. cbv zeta.
-  destruct (top_carry 128 b v ltac:(lia) Hv) as [Hc Hcb].
-  rewrite Hc. rewrite digit_spec by lia. rewrite top_eff_wrap by lia. f_equal.
-  - apply wrap_id; [lia|]. apply (in_range_weaken b 64); [lia|]. apply wrap_range; lia.
-  - apply enc_digits128_small.
-    pose proof (pow2_pos b ltac:(lia)) as Hp.
-    assert (2 <= 2 ^ b). { replace 2 with (2 ^ 1) at 1 by reflexivity. apply Z.pow_le_mono_r; lia. }
-    change (2 ^ (128 - 1)) with (2 * 2 ^ 126) in Hcb. nia.
+  - apply IH.
+    pose proof (pow2_pos b ltac:(lia)) as Hp. pose proof (pow2_split b ltac:(lia)) as Hs.
+    pose proof (pow2_pos (b - 1) ltac:(lia)) as Hp1.
+    assert (E : 2 ^ (128 - 1) = 2 * 2 ^ 126) by reflexivity.
+    unfold in_range. rewrite E in *. nia.
 Qed.
 
 Theorem enc_i128_spec (k : Z) (a_size : nat) (v : Z) : 1 <= k <= Z.of_nat a_size * b -> in_range 128 v ->
-  enc_i128 b k a_size v = enc_spec b k a_size (top_eff 128 b v).
+  enc_i128 b k a_size v = enc_spec b k a_size v.
 Proof.
   intros Hk Hv. unfold enc_i128, enc_spec. cbv zeta.
   destruct (enc_params b k ltac:(lia) ltac:(lia)) as (Esz & Hr & Hs1).
   pose proof (enc_size_le b k a_size ltac:(lia) Hk) as Hs2.
   set (size := enc_size b k) in *. set (krem := enc_krem b k) in *.
-  rewrite enc_digits128_full by auto.
-  set (V := top_eff 128 b v).
+  rewrite enc_digits128_ldigs by auto.
+  set (V := v).
   replace size with (S (size - 1)) at 1 2 by lia. cbn [ldigs rev]. rewrite <- app_assoc. cbn [app].
   set (hi := rev (ldigs b (size - 1) (bdiv b V))).
   assert (El : length hi = (size - 1)%nat) by (unfold hi; rewrite rev_length, ldigs_length; reflexivity).
@@ -288,25 +278,19 @@ Proof.
   assert (H61 : 2 ^ (b - 1) <= 2 ^ 61) by (apply Z.pow_le_mono_r; lia).
   rewrite enc_norm_app; [|lia| |].
   - unfold hi at 2. rewrite rev_involutive.
-    rewrite top_eff_small; [|lia| |lia].
-    + (* the digits of V, shifted, renormalise to the digits of V * 2^krem *)
-      pose proof (ldigs_value b (size - 1) (bdiv b V) ltac:(lia)) as Hval.
-      pose proof (wrap_bdiv b V ltac:(lia)) as HdV.
-      set (L := lvalr b (ldigs b (size - 1) (bdiv b V))) in *.
-      set (Q := bdivn b (size - 1) (bdiv b V)) in *.
-      rewrite El. replace (S (size - 1)) with size by lia.
-      assert (Esz2 : 2 ^ (Z.of_nat size * b) = 2 ^ b * 2 ^ (Z.of_nat (size - 1) * b)).
-      { rewrite <- Z.pow_add_r by lia. f_equal. nia. }
-      replace (wrap b V * 2 ^ krem + 2 ^ b * (L * 2 ^ krem))
-        with (V * 2 ^ krem + 2 ^ (Z.of_nat size * b) * (- Q * 2 ^ krem)) by (rewrite Esz2; nia).
-      rewrite ldigs_periodic by lia.
-      replace size with (S (size - 1)) at 1 by lia. cbn [ldigs rev].
-      rewrite wrap_scale, bdiv_scale by lia.
-      rewrite <- app_assoc. cbn [app].
-      (* both sides: rev (ldigs b (size-1) (bdiv (b-krem) V)) ++ wrap (b-krem) V * 2^krem :: zeros *)
-      reflexivity.
-    + destruct Hd as [Hd1 Hd2]. change (2 ^ (64 - 2)) with (2 ^ 62).
-      assert (2 ^ 61 <= 2 ^ 62) by (apply Z.pow_le_mono_r; lia). lia.
+    pose proof (ldigs_value b (size - 1) (bdiv b V) ltac:(lia)) as Hval.
+    pose proof (wrap_bdiv b V ltac:(lia)) as HdV.
+    set (L := lvalr b (ldigs b (size - 1) (bdiv b V))) in *.
+    set (Q := bdivn b (size - 1) (bdiv b V)) in *.
+    rewrite El. replace (S (size - 1)) with size by lia.
+    assert (Esz2 : 2 ^ (Z.of_nat size * b) = 2 ^ b * 2 ^ (Z.of_nat (size - 1) * b)).
+    { rewrite <- Z.pow_add_r by lia. f_equal. nia. }
+    replace (wrap b V * 2 ^ krem + 2 ^ b * (L * 2 ^ krem))
+      with (V * 2 ^ krem + 2 ^ (Z.of_nat size * b) * (- Q * 2 ^ krem)) by (rewrite Esz2; nia).
+    rewrite ldigs_periodic by lia.
+    replace size with (S (size - 1)) at 1 by lia. cbn [ldigs rev].
+    rewrite wrap_scale, bdiv_scale by lia.
+    rewrite <- app_assoc. cbn [app]. reflexivity.
   - apply (in_range_weaken b 64); [lia|exact Hd].
   - unfold hi. apply Forall_rev. eapply Forall_impl; [|exact Hbal].
     intros y [Hy1 Hy2]. assert (2 ^ 61 <= 2 ^ 62) by (apply Z.pow_le_mono_r; lia). lia.
